@@ -41,6 +41,8 @@ func C17(r *core.Report) {
 	c17RemoteReadComplete(r)
 	checkNoEscapingFieldAlias(r, "C17.R7", "range-cache", "RangeCache")
 	r.Floor("C17.R7", 2)
+	c17EntryLengthInvariant(r)
+	r.Floor("C17.R8", 1)
 	r.Floor("C17.R1", 20)
 	r.Floor("C17.R2", 1)
 	r.Floor("C17.R3", 3)
@@ -350,5 +352,76 @@ func c17RemoteReadComplete(r *core.Report) {
 	}
 	if n == 0 {
 		r.Undecided(rule, "vacuity", "", "no read call found")
+	}
+}
+
+// c17EntryLengthInvariant (C17.R8): every entry put into the range cache holds exactly as many bytes as its key range is
+// long - reads slice the cached value by offsets relative to the key's start, so a longer or shifted value answers with
+// the wrong bytes. At each store `cache[Range{a, b}] = RangeCacheEntry{Value: v}` the comparison len(v) == b - a must be
+// known and still current (none of v, a, b reassigned since the test).
+func c17EntryLengthInvariant(r *core.Report) {
+	const rule = "C17.R8"
+	p := r.Prog
+	n := 0
+	for _, f := range p.FuncsInPkg("range-cache") {
+		if f.Body == nil || strings.HasSuffix(p.FileOf(f.Pos()), "_test.go") {
+			continue
+		}
+		info := f.Pkg.TypesInfo
+		g := p.Graph(f)
+		for _, node := range stmtNodes(g) {
+			as, ok := node.Ast.(*ast.AssignStmt)
+			if !ok || len(as.Lhs) != 1 || len(as.Rhs) != 1 {
+				continue
+			}
+			ix, ok := core.Unparen(as.Lhs[0]).(*ast.IndexExpr)
+			if !ok || !strings.HasSuffix(core.ExprStr(ix.X), ".cache") {
+				continue
+			}
+			cl, ok := core.Unparen(as.Rhs[0]).(*ast.CompositeLit)
+			if !ok {
+				continue
+			}
+			var valExpr ast.Expr
+			for _, el := range cl.Elts {
+				if kv, ok := el.(*ast.KeyValueExpr); ok && core.ExprStr(kv.Key) == "Value" {
+					valExpr = kv.Value
+				}
+			}
+			kl, ok := core.Unparen(ix.Index).(*ast.CompositeLit)
+			if valExpr == nil || !ok || len(kl.Elts) != 2 {
+				continue
+			}
+			n++
+			k := fmt.Sprintf("%s#cache-store@%d-value-length=range-length", f.Key, n)
+			vo, ao, bo := core.ObjOf(info, valExpr), core.ObjOf(info, kl.Elts[0]), core.ObjOf(info, kl.Elts[1])
+			if vo == nil || ao == nil || bo == nil {
+				r.Undecided(rule, k, pos(r, as), "value or key bounds of the store are not plain variables")
+				continue
+			}
+			okLen, stale := false, false
+			for _, fc := range g.FactsAt(node) {
+				be, ok := core.Unparen(fc.Expr).(*ast.BinaryExpr)
+				if !ok || fc.Tag != nil || !((be.Op == token.NEQ && !fc.Truth) || (be.Op == token.EQL && fc.Truth)) {
+					continue
+				}
+				if core.Mentions(info, be, vo) && core.Mentions(info, be, ao) && core.Mentions(info, be, bo) && strings.Contains(core.ExprStr(be), "len(") {
+					if g.FactFresh(fc, node) {
+						okLen = true
+					} else {
+						stale = true
+					}
+				}
+			}
+			why := "no comparison of len(value) with the length of the key range dominates the store"
+			if stale {
+				why = "the value or the bounds of the key range are changed between the length test and the store"
+			}
+			r.Check(okLen, rule, k, pos(r, as), "the entry stored has exactly the length of its key range (tested, and nothing reassigned since)",
+				why+": an entry whose bytes are longer than or shifted against its range answers later reads with the wrong bytes")
+		}
+	}
+	if n == 0 {
+		r.Undecided(rule, "range-cache#cache-store", "", "no store into the range cache found")
 	}
 }
